@@ -5,7 +5,8 @@
    (fx = true, the ones the drivers run); the variants before the repair (fx = false / explicit orders) keep their
    exact characterisation and their refutations (..._prefix_refuted). *)
 From Coq Require Import List NArith ZArith Bool Lia Permutation.
-From LH Require Import Base.Bytes Model.FileIndex Model.ModulePath Model.Merge Proofs.MergeProofs Proofs.MergeDet.
+From LH Require Import Base.Bytes Model.FileIndex Model.ModulePath Model.Merge Proofs.MergeProofs Proofs.MergeDet
+  Proofs.MergeProject.
 Import ListNotations.
 Local Open Scope N_scope.
 
@@ -282,3 +283,143 @@ Proof.
     split; [vm_compute; repeat constructor; simpl; intuition discriminate|].
     split; [apply least_of_some; vm_compute; reflexivity|vm_compute; reflexivity].
 Qed.
+
+(* ---- project mode (luahelper.json with ProjectFiles; check_second_project.go) ----
+   The first-phase _G table of a project is NOT the third-pass merge: InsertGlobalGMaps appends unconditionally (no
+   JudgeShouldInsertGlobalInfo) and FindGlobalGInfo answers the last insertion, so before the repair EVERY definition
+   of a name could win (whichever file the map iteration handed out last), not just the minimal ones.
+   project_merge_ws fx g_of plain_of refers_of files: both loops of checkOneProject over second.AllFiles
+   (generateAllFristGlobalGMaps: the `_G.x` globals g_of; generateRequireFileGlobalGmaps: the plain globals plain_of of
+   the files referenced along refers_of, a require'd file once); fx = false: map order (before the repair), fx = true:
+   sorted name order (fixes/C09-project-order.diff, the variant the driver runs). *)
+
+(* full statement for the code BEFORE the repair (refuted below) *)
+Definition C09_project_merge_prefix_full : Prop :=
+  forall g_of plain_of refers_of files files', Permutation files files' ->
+  forall n, winner (project_merge_ws false g_of plain_of refers_of files) n
+          = winner (project_merge_ws false g_of plain_of refers_of files') n.
+
+(* FULL statement, repaired code: whatever order the map iteration hands out the project's files in, every name has
+   the same winner (no guard; even the tables are equal) *)
+Theorem C09_project_merge_perm_full : forall g_of plain_of refers_of files files', Permutation files files' ->
+  forall n, winner (project_merge_ws true g_of plain_of refers_of files) n
+          = winner (project_merge_ws true g_of plain_of refers_of files') n.
+Proof. exact project_merge_ws_perm_files. Qed.
+Print Assumptions C09_project_merge_perm_full.
+
+Theorem C09_project_merge_perm_table : forall g_of plain_of refers_of files files', Permutation files files' ->
+  project_merge_ws true g_of plain_of refers_of files = project_merge_ws true g_of plain_of refers_of files'.
+Proof. exact project_merge_ws_perm_table. Qed.
+Print Assumptions C09_project_merge_perm_table.
+
+(* all map levels at once: the files in any order AND every file's GlobalMaps in any order (map_shaped = the maps are
+   keyed by the name, boolean; refer_targets = the files the second loop can take plain globals from) *)
+Theorem C09_project_merge_perm_full_inner : forall g_of g_of' plain_of plain_of' refers_of files files',
+  Permutation files files' ->
+  map_shaped g_of files = true -> map_shaped plain_of (refer_targets refers_of files) = true ->
+  (forall k, In k files -> Permutation (g_of k) (g_of' k)) ->
+  (forall k, In k (refer_targets refers_of files) -> Permutation (plain_of k) (plain_of' k)) ->
+  forall n, winner (project_merge_ws true g_of plain_of refers_of files) n
+          = winner (project_merge_ws true g_of' plain_of' refers_of files') n.
+Proof. exact project_merge_ws_perm_full. Qed.
+Print Assumptions C09_project_merge_perm_full_inner.
+
+(* what the table answers (either variant): the last definition along the visiting order, the plain globals of the
+   referenced files after all `_G.` ones *)
+Theorem C09_project_winner_last : forall fx g_of plain_of refers_of files n,
+  winner (project_merge_ws fx g_of plain_of refers_of files) n =
+  last_opt (flat_map (fun k => vars_of n (g_of k)) (visit_order fx files) ++
+            flat_map (fun k => vars_of n (plain_of k)) (picked (flat_map refers_of (visit_order fx files)) [])).
+Proof. exact project_merge_ws_winner. Qed.
+Print Assumptions C09_project_winner_last.
+
+(* handleOtherFileInsertSub: the file that provides a member several files add to a global *)
+Theorem C09_member_provider_perm : forall adds files files' key, Permutation files files' ->
+  member_provider true adds files key = member_provider true adds files' key.
+Proof. exact member_provider_perm. Qed.
+Print Assumptions C09_member_provider_perm.
+
+(* findMaxSecondProject: the project a file that belongs to several projects is answered from (sizes_pos: every
+   candidate project has at least one file - it contains the file asked for; boolean) *)
+Theorem C09_pick_project_perm : forall ps ps', Permutation ps ps' -> sizes_pos ps = true ->
+  pick_project true ps = pick_project true ps'.
+Proof. exact pick_project_perm. Qed.
+Print Assumptions C09_pick_project_perm.
+
+Theorem C09_pick_project_most : forall ps e, sizes_pos ps = true -> pick_project true ps = Some e ->
+  exists n, In (e, n) ps /\ forall c, In c ps -> snd c <= n.
+Proof. exact pick_project_most. Qed.
+Print Assumptions C09_pick_project_most.
+
+(* the witness project: main.lua = require("a") require("b") require("c") _G.foo(1, 2); a.lua, b.lua, c.lua each
+   `_G.foo = function ... end` on line 1 *)
+Definition n_foo : list N := [102; 111; 111].
+Definition f_main : list N := [109; 97; 105; 110; 46; 108; 117; 97].
+Definition f_x : list N := [120; 46; 108; 117; 97].
+Definition pv_a : gvar := mk_gvar f_a 0 0 1.
+Definition pv_b : gvar := mk_gvar f_b 0 0 1.
+Definition pv_c : gvar := mk_gvar f_c 0 0 1.
+Definition p_g (k : list N) : list (list N * gvar) :=
+  if beq_bytes k f_a then [(n_foo, pv_a)] else if beq_bytes k f_b then [(n_foo, pv_b)]
+  else if beq_bytes k f_c then [(n_foo, pv_c)] else [].
+Definition p_none (k : list N) : list (list N * gvar) := [].
+Definition p_refs (k : list N) : list refer :=
+  if beq_bytes k f_main then [(true, f_a); (true, f_b); (true, f_c)] else [].
+(* second witness: main.lua = require("a") require("x") foo(1, 2); x.lua = require("b"); a.lua, b.lua each a plain
+   `function foo ... end`: which of the two is inserted last depends on whether main.lua or x.lua is visited first *)
+Definition p_plain2 (k : list N) : list (list N * gvar) :=
+  if beq_bytes k f_a then [(n_foo, pv_a)] else if beq_bytes k f_b then [(n_foo, pv_b)] else [].
+Definition p_refs2 (k : list N) : list refer :=
+  if beq_bytes k f_main then [(true, f_a); (true, f_x)] else if beq_bytes k f_x then [(true, f_b)] else [].
+Definition p_adds (f key : list N) : bool := beq_bytes f f_a || beq_bytes f f_b.
+
+Theorem C09_project_merge_prefix_refuted :
+  (* three fresh starts of the real server: the map handed out main a b c / b c main a / c main a b *)
+  (Permutation [f_main; f_a; f_b; f_c] [f_b; f_c; f_main; f_a] /\
+   Permutation [f_main; f_a; f_b; f_c] [f_c; f_main; f_a; f_b] /\
+   winner (project_merge_ws false p_g p_none p_refs [f_main; f_a; f_b; f_c]) n_foo = Some pv_c /\
+   winner (project_merge_ws false p_g p_none p_refs [f_b; f_c; f_main; f_a]) n_foo = Some pv_a /\
+   winner (project_merge_ws false p_g p_none p_refs [f_c; f_main; f_a; f_b]) n_foo = Some pv_b) /\
+  ~ C09_project_merge_prefix_full /\
+  (* the second loop (plain globals of require'd files) *)
+  (Permutation [f_main; f_a; f_x; f_b] [f_x; f_b; f_main; f_a] /\
+   winner (project_merge_ws false p_none p_plain2 p_refs2 [f_main; f_a; f_x; f_b]) n_foo = Some pv_b /\
+   winner (project_merge_ws false p_none p_plain2 p_refs2 [f_x; f_b; f_main; f_a]) n_foo = Some pv_a) /\
+  (* the third loop (a member added by two files) *)
+  (member_provider false p_adds [f_a; f_b] n_foo = Some f_a /\ member_provider false p_adds [f_b; f_a] n_foo = Some f_b) /\
+  (* two equally large projects that both contain the file *)
+  (Permutation [(f_a, 3); (f_b, 3)] [(f_b, 3); (f_a, 3)] /\
+   pick_project false [(f_a, 3); (f_b, 3)] = Some f_a /\ pick_project false [(f_b, 3); (f_a, 3)] = Some f_b).
+Proof.
+  split.
+  { split; [exact (Permutation_app_comm [f_main; f_a] [f_b; f_c])|].
+    split; [exact (Permutation_app_comm [f_main; f_a; f_b] [f_c])|].
+    repeat split; vm_compute; reflexivity. }
+  split.
+  { intros H. specialize (H p_g p_none p_refs [f_main; f_a; f_b; f_c] [f_b; f_c; f_main; f_a]
+      (Permutation_app_comm [f_main; f_a] [f_b; f_c]) n_foo). vm_compute in H. discriminate. }
+  split.
+  { split; [exact (Permutation_app_comm [f_main; f_a] [f_x; f_b])|]. split; vm_compute; reflexivity. }
+  split; [split; vm_compute; reflexivity|].
+  split; [apply perm_swap|]. split; vm_compute; reflexivity.
+Qed.
+Print Assumptions C09_project_merge_prefix_refuted.
+
+(* regression on the witnesses: the repaired code answers the same in every order - c.lua (the last file in name
+   order that defines _G.foo), b.lua, a.lua, a.lua: what the repaired server answers on the four witness projects *)
+Example C09_project_witness_fixed :
+  winner (project_merge_ws true p_g p_none p_refs [f_main; f_a; f_b; f_c]) n_foo = Some pv_c /\
+  winner (project_merge_ws true p_g p_none p_refs [f_b; f_c; f_main; f_a]) n_foo = Some pv_c /\
+  winner (project_merge_ws true p_g p_none p_refs [f_c; f_main; f_a; f_b]) n_foo = Some pv_c /\
+  winner (project_merge_ws true p_none p_plain2 p_refs2 [f_main; f_a; f_x; f_b]) n_foo = Some pv_b /\
+  winner (project_merge_ws true p_none p_plain2 p_refs2 [f_x; f_b; f_main; f_a]) n_foo = Some pv_b /\
+  member_provider true p_adds [f_a; f_b] n_foo = Some f_a /\ member_provider true p_adds [f_b; f_a] n_foo = Some f_a /\
+  pick_project true [(f_a, 3); (f_b, 3)] = Some f_a /\ pick_project true [(f_b, 3); (f_a, 3)] = Some f_a /\
+  (* more files still wins against a smaller entry name *)
+  pick_project true [(f_a, 3); (f_b, 4)] = Some f_b /\
+  (* the guards of the theorems above hold of the witnesses *)
+  map_shaped p_g [f_main; f_a; f_b; f_c] = true /\
+  map_shaped p_plain2 (refer_targets p_refs2 [f_main; f_a; f_x; f_b]) = true /\
+  refer_targets p_refs2 [f_main; f_a; f_x; f_b] = [f_a; f_x; f_b] /\
+  sizes_pos [(f_a, 3); (f_b, 3)] = true.
+Proof. repeat split; vm_compute; reflexivity. Qed.
